@@ -198,7 +198,7 @@ def run(ctx):
     # ------------------------------------------------------------------ stream 2: kill at every call boundary
     stats = dict(kill_runs=0, in_txn_kills=0, states_checked=0, recovery_used=0, metadata_incomplete_after_kill=0,
                  histories_swept=0, r_states=0)
-    outside, model_diff, not_openable, run_anomaly = [], [], [], []
+    outside, model_diff, not_openable, run_anomaly, no_prefix = [], [], [], [], []
     nontrivial = set()
 
     def judge(h, kind, p, rc, dump, derr, klog_order, expect_rc, R):
@@ -227,7 +227,18 @@ def run(ctx):
         m = klog_order.last_cmd
         q = klog_order.last_commit_cmd
         active = klog_order[-1] if len(klog_order) else None
+        q_all = q
         for n in h.names:
+            q = q_all
+            info = klog_order.per_db.get(n)
+            if kind != "cmd" and q == m and info and info["last"] == m and info["prev_unflushed"]:
+                # the kill falls inside the command whose commit event is the latest one, and the transaction of the commit
+                # before it had not been flushed when this commit began (no LevelDb `commit` call on this dictionary in
+                # between: the two commits were not separated by a key that reaches the dictionary).  The commit in
+                # progress is not yet made, so the final commit made is the earlier one and it may still be missing.  At a
+                # command boundary (kind "cmd") the command has returned and its commit counts.
+                q = info["prev"]
+                stats["kills_inside_back_to_back_commit"] = stats.get("kills_inside_back_to_back_commit", 0) + 1
             got = dump.get(n, {})
             load = got.get("load", "")
             if not load.startswith("ok") or got.get("status") != "open":
@@ -259,6 +270,12 @@ def run(ctx):
             if not in_R:
                 outside.append((h, kind, p, n, _view(recs), [_view(R[kk][n]) for kk in ks if R[kk] is not None], load))
             elif in_set is False:
+                # the real code's own clean-shutdown states allow it, the model's window does not.  When NO prefix of the
+                # history's commits produces it in the model either (entries and counts as the proved semantics of one
+                # commit / one revocation gives them), the dictionary holds something no prefix of the commits produced:
+                # that is the property's first clause failing on this history and kill point, not a matter of timing
+                if not any(_view(v) == _view(recs) for v in mod["S"].values()):
+                    no_prefix.append((h, kind, p, n, _view(recs), _view(mod["S"].get(hi))))
                 model_diff.append((h, kind, p, n, recs, mod["S"].get(lo), mod["S"].get(hi)))
 
     def sweep_ops(h):
@@ -275,11 +292,29 @@ def run(ctx):
                 if os.path.exists(f):
                     os.remove(f)
             return p, rc, dump, derr, o2
+        def one_cmd(kk):
+            """the process dies at a command boundary (script line `!`): also the boundaries at which the code under test
+            issues no LevelDb call at all, e.g. behind a commit that memorises nothing"""
+            d = udbl.fresh_user_dir(tpl, os.path.join(root, "c%d_%d" % (h.idx, kk)))
+            lg = os.path.join(root, "c%d_%d.log" % (h.idx, kk))
+            rc, out, err = udbl.run_script(exe, tpl, d, h.script[:kk] + ["!"], log_path=lg)
+            dump, derr = udbl.run_dump(exe, tpl, d, h.names)
+            o2, _ = udbl.parse_log(lg)
+            shutil.rmtree(d, ignore_errors=True)
+            for f in (lg, d + ".script"):
+                if os.path.exists(f):
+                    os.remove(f)
+            return kk, rc, dump, derr, o2
         with ThreadPoolExecutor(vlib.NPROC) as ex:
             fr = [ex.submit(r_state, h, kk) for kk in range(len(h.script) + 1)]
             results = list(ex.map(one, range(N + 1)))
+            cmd_results = list(ex.map(one_cmd, range(2, len(h.script) + 1)))
             R = [f.result() for f in fr]
         stats["r_states"] += len(R)
+        for kk, rc, dump, derr, o2 in cmd_results:
+            judge(h, "cmd", kk, rc, dump, derr, o2, 137, R)
+            stats["cmd_boundary_kills"] = stats.get("cmd_boundary_kills", 0) + 1
+            nontrivial.add((h.idx, "cmd", kk))
         for p, rc, dump, derr, o2 in results:
             judge(h, "op", p, rc, dump, derr, o2, 137 if p < N else 0, R)
             # was a transaction open at this boundary?  (flags logged by the hook at the next call)
@@ -351,7 +386,8 @@ def run(ctx):
 
     # ------------------------------------------------------------------ verdicts
     def replay_of(h, kind, p, extra):
-        how = {"op": "VERIF_DBLOG=<log> VERIF_CRASH_AT=%d %s run <template>/shared <fresh user dir> <script>" % (p, exe),
+        how = {"cmd": "%s run <template>/shared <fresh user dir> <the first %d script lines followed by the line `!` (= _exit(137))>" % (exe, p),
+               "op": "VERIF_DBLOG=<log> VERIF_CRASH_AT=%d %s run <template>/shared <fresh user dir> <script>" % (p, exe),
                "sys": "LD_PRELOAD=%s VERIF_KILL_AT=%d %s run ..." % (os.path.join(vlib.WORK, "bin", "udbl-killpoint.so"), p, exe),
                "sys-torn": "LD_PRELOAD=... VERIF_KILL_AT=%d VERIF_KILL_TORN=1 %s run ..." % (p, exe)}[kind]
         r = {"schema": h.schema, "script": h.script, "kill_kind": kind, "kill_index": p,
@@ -374,7 +410,16 @@ def run(ctx):
     for h, kind, p, n, why in not_openable[:3]:
         ctx.violation("not-openable:%s:%s" % (h.schema, kind), "after a kill the user dictionary '%s' does not open, even after the built-in recovery" % n,
                       replay_of(h, kind, p, {"db": n, "load": why}), found_input=True)
-    found_any = bool(outside or not_openable)
+    for h, kind, p, n, recs, want in no_prefix:
+        cls = "state-no-commit-prefix-produces:%s:%s" % (h.schema, kind)
+        if cls in seen:
+            continue
+        seen.add(cls)
+        ctx.violation(cls, "the reopened user dictionary '%s' holds entries or counts that no prefix of the history's commits produces "
+                      "(per-commit semantics of the model, C11_txn_atomic): e.g. a revoked commit written out, or a count bumped twice" % n,
+                      replay_of(h, kind, p, {"db": n, "reopened": recs, "model_state_at_this_point": want,
+                                             "count": sum(1 for o in no_prefix if o[0].schema == h.schema and o[1] == kind)}))
+    found_any = bool(outside or not_openable or no_prefix)
     for h, n in proto_mism[:3]:
         a, b = h.dbs[n].ops, h.model[n]["ops"]
         i = next((i for i, (x, y) in enumerate(zip(a, b)) if x != y), min(len(a), len(b)))
@@ -407,7 +452,7 @@ def run(ctx):
         "generator_distribution": gen_stats,
         "protocol": {"histories": len(hists), "db_histories": len(feed), "calls_compared": n_ops, "events_fed_to_model": n_events,
                      "commit_events": n_commit_events, "commits_with_several_memorised_phrases": n_multi, "mismatching_db_histories": len(proto_mism), "asan_aborts": len(aborted)},
-        "crash_sweep": dict(stats, outside_allowed_set=len(outside), differs_from_model=len(model_diff), not_openable=len(not_openable),
+        "crash_sweep": dict(stats, outside_allowed_set=len(outside), differs_from_model=len(model_diff), no_commit_prefix=len(no_prefix), not_openable=len(not_openable),
                             anomalies=len(run_anomaly)),
         "syscall_sweep": sys_stats,
         "exhaustive": False,
